@@ -67,6 +67,9 @@ def read_input(args):
     else:
         rec_input = ReconciliationInput.from_dict(data)
 
+    # Name unnamed ancestral nodes (O#/S#) so that every algorithm writes
+    # an output whose nodes can be told apart and read back
+    rec_input.label_internal()
     return rec_input
 
 
